@@ -1592,6 +1592,9 @@ func (ctx Ctx) varDeclStmt(s *ast.DeclStmt) coq.Binding {
 	if len(decl.Specs) > 1 {
 		ctx.unsupported(s, "multiple declarations in one var statement")
 	}
+	if len(decl.Specs) == 0 {
+		ctx.unsupported(s, "empty var statement")
+	}
 	// guaranteed to be a *Ast.ValueSpec due to decl.Tok
 	//
 	// https://golang.org/pkg/go/ast/#GenDecl
@@ -2218,6 +2221,10 @@ func (ctx Ctx) maybeDecls(d ast.Decl) []coq.Decl {
 		case token.VAR:
 			return ctx.globalVarDecl(d)
 		case token.TYPE:
+			if len(d.Specs) == 0 {
+				// an empty group `type ()` declares nothing
+				return nil
+			}
 			if len(d.Specs) > 1 {
 				ctx.noExample(d, "multiple specs in a type decl")
 			}
